@@ -245,3 +245,83 @@ Print Assumptions C09_new_element_empty.
 Example C09_history_nonvacuous : Forall query_ok c09_history /\ all_succeed rv_fixed db_new c09_history.
 Proof. exact c09_history_ok. Qed.
 Print Assumptions C09_history_nonvacuous.
+
+(* ---- all histories, UNCONDITIONALLY (supersedes C09_transaction_partial / C09_history_partial) ----
+   The hypothesis `traversal_live rv_fixed` is gone: theories/TraversalLiveProofs.v derives from the
+   C14 / C17 / C18 developments (under the graph invariant wf, part of Inv) that every id returned by
+   any search of the repaired code exists (`search_live_fixed`).  [As literally stated the old hypothesis
+   was even too strong to hold — its path-search clause did not ask for an existing origin, see
+   C10_traversal_live_refuted — so the two `_partial` theorems above were vacuous; they are kept only
+   for the record.]
+   STILL RESTRICTED HERE TO histories in which no query fails (`all_succeed`); histories WITH failing
+   queries / rolled-back transactions are covered by C13_history_atomic (Props/C13.v), which gives Inv
+   — hence the two conjuncts below — after EVERY history (with the capacity bound 2^63 of C13). *)
+From Agdb Require Import TraversalLiveProofs DbInvariantProofs.
+
+Theorem C09_transaction :
+  forall d qs acc, Forall query_ok qs -> Inv d ->
+  let d1 := fst (fst (txn_run rv_fixed d qs acc)) in kvs_distinct (vals d1) /\ vals_live d1.
+Proof. intros d qs acc Hq Hd. apply Inv_values. now apply transaction_state_Inv_fixed. Qed.
+Print Assumptions C09_transaction.
+
+Theorem C09_history :
+  forall qs, Forall query_ok qs -> all_succeed rv_fixed db_new qs ->
+  kvs_distinct (vals (exec_all rv_fixed db_new qs)) /\ vals_live (exec_all rv_fixed db_new qs).
+Proof. exact history_values_fixed. Qed.
+Print Assumptions C09_history.
+
+(* ---- the abstract database: what users rely on, at every point of every history ----------------
+   C09_history_all: the joint invariant Inv holds after EVERY history of queries (Db::exec / exec_mut,
+   rolled back when they fail) and transactions (committed, or rolled back when a query fails or a
+   failure is injected at the end) from the empty database — theories/HistoryAtomicProofs.v, pinned
+   with the rollback statements as C13_history_atomic.  item_ok = query_ok for every query (no insert
+   list names a key twice), bounded = the capacity stays <= 2^63.
+   C09_abstract_database: what Inv means for a user, in one place:
+     ids        every id / alias that resolves denotes an existing element;
+     aliases    one-to-one names of existing nodes;
+     properties an element never has two equal keys, only existing elements have properties (so a new
+                element reusing a slot starts with none);
+     indexes    an index search for (K, V) returns exactly, as a multiset, the existing elements whose
+                value of K equals V;
+     searches   every id returned by ANY search (index, elements, breadth/depth first, path; any
+                conditions, limit, offset, order) exists;
+     graph      every edge joins two existing nodes; a node's out-/in-list is exactly the set of
+                existing edges leaving / entering it and the degree counters are their lengths;
+                a breadth/depth-first search without conditions from an existing element returns
+                exactly the elements reachable from it, each once, origin first;
+     removal    any element can be removed (never fails; afterwards it does not exist). *)
+From Agdb Require Import GraphSim TraverseSpec AliasProofs HistoryAtomicProofs AbstractDbProofs.
+
+Theorem C09_history_all :
+  forall its, Forall item_ok its -> bounded rv_fixed db_new its -> Inv (run_items rv_fixed db_new its).
+Proof. exact history_abstract_fixed. Qed.
+Print Assumptions C09_history_all.
+
+Theorem C09_abstract_database :
+  forall d, Inv d ->
+  (forall q id, db_id d q = ROk id -> live d id = true) /\
+  (alias_bij d /\ alias_nodes d /\
+   forall a b id, imap_value (aliases d) a = Some id -> imap_value (aliases d) b = Some id -> a = b) /\
+  (kvs_distinct (vals d) /\ vals_live d) /\
+  (forall key ids value id, idx_find (indexes d) key = Some ids ->
+     count_occ Z.eq_dec (map snd (filter (fun p : dbvalue * Z => dbv_eqb (fst p) value) ids)) id =
+     if live d id then match kvs_value (vals d) id key with
+                       | Some v' => IndexProofs.b2nat (dbv_eqb v' value)
+                       | None => 0%nat
+                       end
+     else 0%nat) /\
+  (forall s ids, search rv_fixed d s = SOk ids -> forall id, In id ids -> live d id = true) /\
+  (forall e, is_edge (gr d) e = true ->
+     0 < edge_from (gr d) e /\ is_node (gr d) (edge_from (gr d) e) = true /\
+     0 < edge_to (gr d) e /\ is_node (gr d) (edge_to (gr d) e) = true) /\
+  (forall n, 0 < n -> is_node (gr d) n = true ->
+     (forall e, In e (out_edges (gr d) n) <-> e < 0 /\ is_edge (gr d) e = true /\ edge_from (gr d) e = n) /\
+     (forall e, In e (in_edges (gr d) n) <-> e < 0 /\ is_edge (gr d) e = true /\ edge_to (gr d) e = n) /\
+     edge_count_from (gr d) n = Z.of_nat (length (out_edges (gr d) n)) /\
+     edge_count_to (gr d) n = Z.of_nat (length (in_edges (gr d) n))) /\
+  (forall a reverse origin, live d origin = true ->
+     exists r, graph_search rv_fixed d a reverse origin [] HDefault = Some (origin :: r) /\
+               NoDup (origin :: r) /\ (forall x, In x (origin :: r) <-> reach (gr d) reverse origin x)) /\
+  (forall id, exists d' b, remove_id d id = (d', ROk b) /\ live d' id = false).
+Proof. exact Inv_abstract. Qed.
+Print Assumptions C09_abstract_database.
